@@ -58,8 +58,8 @@ def cells(tier):
                 cell = {'kind': 'rt', 'm': m, 'succ': succ, 'c': c}
                 if m == 4:
                     big.extend(api.shards(cell, 16, 10))
-                elif m == 3 and succ:
-                    big.extend(api.shards(cell, 4, 8))
+                elif (m == 3 and succ) or (m == 2 and (succ, c) == (2, 1)):
+                    big.extend(api.shards(cell, 8, 8))
                 else:
                     out.append(cell)
         out.append({'kind': 'rt', 'm': 5, 'succ': 0, 'c': 0})
